@@ -823,3 +823,7 @@ M('C05', 'c05-monitored-phase-drops-result', 'openhtf/core/monitors.py',
   "        return phase_desc(test_state, *args, **kwargs)\n",
   "        phase_desc(test_state, *args, **kwargs)\n",
   'the @monitors wrapper drops the result of the body')
+M('C12', 'c12-monitor-killed-once', 'openhtf/core/monitors.py',
+  "        while monitor_thread.is_alive():\n          monitor_thread.kill()\n          monitor_thread.join(_KILL_RETRY_INTERVAL_S)\n",
+  "        monitor_thread.kill()\n        monitor_thread.join()\n",
+  'F37 reverted: the monitor thread is asked to end only once and joined without a time-out')
